@@ -83,6 +83,7 @@ func init() {
 		Rules: []ruleDef{
 			{"C19.alloc-bound", ruleC19AllocBound, ""},
 			{"C19.tail-handling", ruleC08Gates, ""},
+			{"C19.segment-end", ruleC03CompactComplete, ""},
 		},
 		Explanation: "Decides with a forward value-flow (taint) analysis over every function reachable from recovery and segment iteration: no make/Grow/CopyN is sized by a value decoded from file bytes (binary.LittleEndian.UintN and arithmetic on it) unless the allocation is control dependent on a comparison 'tainted <= untainted bound' (the file length or a constant). NOT decided: total work/time of recovery; allocations inside encoding/gob (metadata is discarded by recovery).",
 		Assumptions: commonAssumptions,
@@ -188,6 +189,7 @@ func init() {
 		Rules: []ruleDef{
 			{"C12", ruleC12, ""},
 			{"C12.guarded", ruleGuarded, ""},
+			{"C12.write-ahead", ruleC03WriteAhead, ""},
 		},
 		Explanation: "Decides: Backup holds maintenanceMu for all its file-system calls, guarded accesses and DB.mu acquisitions (compaction excluded for the whole backup, capture included); the copy bounds are file.size of not-full segments captured with DB.mu held; whole-file io.Copy is used only for segments absent from the captured map and io.CopyN is bounded by the captured size; every success return creates the lock file in the backup; the source file system is only opened read-only; datalog state is never read without DB.mu (guarded). NOT decided: that the opened backup equals the state at one instant for all schedules.",
 		Assumptions: commonAssumptions,
@@ -215,6 +217,10 @@ func init() {
 			{"C18.names", ruleC18Names, ""},
 			{"C18.gob", ruleC18Gob, ""},
 			{"C18.name-families", ruleC15NameFamilies, ""},
+			{"C18.key-limits", ruleC16Consts, ""},
+			{"C18.single-write", ruleC03SingleWrite, ""},
+			{"C18.size-mirror", ruleC04SizeMirror, ""},
+			{"C18.record-validity", ruleC08Gates, ""},
 			{"C18.addressing", ruleKernelShapes("(*pogreb.index).bucketIndex", "(*pogreb.bucketIterator).next", "(*pogreb.index).newBucketIterator", "pogreb.encodedRecordSize", "(pogreb.slot).kvSize", "(*pogreb.datalog).readKey", "(*pogreb.datalog).readKeyValue"), ""},
 		},
 		Explanation: "Decides that the writer-side and reader-side tables of the current code equal the frozen tables of the documented/pinned format v2: header (signature bytes, version 2 LE @8, 512 bytes, written into every new file and checked on every existing one), bucket (31 slots x 16 bytes: hash u32@0, segmentID u16@4, keySize u16@6, valueSize u32@8, offset u32@12, LE; overflow pointer u64 LE @496; bucket i at 512+512*i), record layout (as C08), file names (%05d-%d.psg and the legacy form, .pmt, main.pix, overflow.pix, index.pmt, db.pmt, lock, .bac), gob metadata field names and types, MurmurHash3 constants. Layouts are extracted from the SSA of the marshal/unmarshal functions by an abstract interpreter for slice positions, not matched textually. NOT decided: opening a golden corpus (dynamic); gob wire compatibility beyond field names/types; bucket-addressing arithmetic.",
@@ -258,6 +264,7 @@ func init() {
 			{"C16.match-equal", ruleC01MatchEqual, ""},
 			{"C16.layout", ruleRecordLayout, ""},
 			{"C16.record-validity", ruleC08Gates, ""},
+			{"C16.rollover", ruleC04Rollover, ""},
 			{"C16.sizes", ruleKernelShapes("pogreb.encodedRecordSize", "(pogreb.slot).kvSize", "(*pogreb.datalog).readKey", "(*pogreb.datalog).readKeyValue"), ""},
 		},
 		Explanation: "Decides: (narrowing) every narrowing or sign-changing conversion of a non-constant integer in package pogreb is one of the reviewed sites with a stated bound (guard in Put, bounded decoded source, segment-size guard, comparison idiom backed by the full key comparison), no arithmetic on non-constants is carried out in a type narrower than 32 bits except the reviewed index.level; (const-relations) MaxKeyLength = 65535 fits the 16-bit fields, MaxValueLength = 512 MiB fits the 31-bit field, a maximal record fits the 32-bit offsets, segment ids fit 16 bits; (reject-before-effect) every call made by Put (hashing, locking, log append, index update) is reachable only after both limits were checked against those constants; look-ups compare the full key after the truncated length compare (match-equal); record length fields are laid out as documented (layout). NOT decided: byte-exact round trip of every admissible size through restart and recovery.",
